@@ -92,3 +92,42 @@ Proof.
       apply pair_equal_spec in H; destruct H; subst; cbn [st_ls]; simpl; apply F.
   - apply pair_equal_spec in H. destruct H; subst. simpl. constructor.
 Qed.
+
+(** The saved LIB is thrown away exactly when it is ABOVE the reset height (the test is
+    [Lib.BlockNo > resetHeight]): a reset AT the LIB height keeps the LIB - the block that stays
+    the best block after the chain reset is still irreversible. *)
+Theorem restore_reset_keeps_lib_at_or_below_height : forall g sv best size self rh,
+  let l0 := ls_lib (st_ls (restore g sv best size self)) in
+  (rh <= 0 \/ b_no l0 <= rh ->
+     ls_lib (st_ls (fst (restore_reset g sv best size self rh))) = l0 /\
+     snd (restore_reset g sv best size self rh) = sv) /\
+  (0 < rh < b_no l0 ->
+     ls_lib (st_ls (fst (restore_reset g sv best size self rh))) = genesis_info /\
+     snd (restore_reset g sv best size self rh) = None).
+Proof.
+  intros g sv best size self rh. unfold restore_reset, restore.
+  destruct sv as [[[p l] lpb]|]; cbn [st_ls fst snd].
+  - set (ls := load g (mkLS p l lpb [] (confirms_required size) self) (k_no best)).
+    cbn [set_prpsd ls_lib]. cbv zeta. split.
+    + intros H.
+      assert (C : ((rh >? 0) && (b_no (ls_lib ls) >? rh)) = false).
+      { apply andb_false_iff. destruct H as [H|H]; [left|right]; rewrite Z.gtb_ltb; apply Z.ltb_ge; lia. }
+      unfold set_prpsd at 1. cbn [ls_lib]. rewrite C. cbn [fst snd st_ls]. split; reflexivity.
+    + intros H.
+      assert (C : ((rh >? 0) && (b_no (ls_lib ls) >? rh)) = true).
+      { apply andb_true_iff. split; rewrite Z.gtb_ltb; apply Z.ltb_lt; lia. }
+      unfold set_prpsd at 1. cbn [ls_lib]. rewrite C. cbn [fst snd st_ls]. split; reflexivity.
+  - cbv zeta. split; intros H; [split; reflexivity|]. simpl in H. lia.
+Qed.
+
+(** so a reset at or above the LIB keeps the veto: no fork point below the LIB may be reorganised *)
+Theorem restore_reset_veto_kept : forall g sv best size self rh f,
+  b_no (ls_lib (st_ls (restore g sv best size self))) <= rh ->
+  f < b_no (ls_lib (st_ls (restore g sv best size self))) ->
+  need_reorganization (st_ls (fst (restore_reset g sv best size self rh))) f = false.
+Proof.
+  intros g sv best size self rh f H Hf. unfold need_reorganization.
+  destruct (restore_reset_keeps_lib_at_or_below_height g sv best size self rh) as [K _].
+  destruct (K (or_intror H)) as [E _]. rewrite E. apply Z.leb_gt. exact Hf.
+Qed.
+
